@@ -288,7 +288,7 @@ theorem identityAuxBounds_sound (p m : Int) (moduli : List Int) (eb : Int × Int
         clear hvs hc hk1 hk2
         have hvl : vs.length ≤ k := by
           rw [hlenv]; simp only [List.length_take]; omega
-        clear hlenv
+        clear hlenv hkl
         induction vs generalizing moduli mjb Es vjs k with
         | nil => cases moduli.take k <;> cases mjb <;> simp [WitOK]
         | cons vb vsb ih =>
